@@ -212,8 +212,8 @@ Proof. vm_compute. reflexivity. Qed.
     `Utf8Position::from`, `read_char_from_bytes`, the validation of `from_utf8`).  Every Unicode
     scalar value is read back from its UTF-8 encoding, consuming exactly its bytes — all
     1,112,064 of them, by a sweep evaluated inside the kernel — so a script that is valid UTF-8 is
-    handed to the command parser character for character and never reaches the reader's
-    `expect("uh oh")`. *)
+    handed to the command parser character for character ([Utf8.read_char] / [Utf8.decode] are the strict
+    reading: what `from_utf8` accepts). *)
 Theorem C14_utf8_char : forall c more, Utf8.scalar c = true ->
   Utf8.read_char (Utf8.encode c ++ more) = Utf8.RcChar c more.
 Proof. exact Utf8.read_char_encode. Qed.
@@ -228,4 +228,43 @@ Example C14_utf8_nonvacuous :
   Utf8.decode [195; 169] = Some [233] /\ Utf8.decode [226; 134; 146] = Some [8594] /\
   Utf8.decode [240; 159; 141; 139; 10] = Some [127819; 10] /\ Utf8.decode [255] = None /\ Utf8.decode [195] = None /\
   Utf8.decode [237; 160; 128] = None.
+Proof. vm_compute. repeat split. Qed.
+
+(** Bytes that are NOT UTF-8 (defect F40: they used to end the session in a panic).  The reader as the
+    debugger uses it ([Utf8.read_char_lossy], `Stdin::read_char`) hands on U+FFFD in their place:
+    - every call takes at least one byte, so every byte stream is read to its end - no stream makes the
+      reader panic or loop ([C14_utf8_reader_total]: the decoding satisfies its unfolding equation with no
+      fuel in it, and each step shortens the stream);
+    - on valid UTF-8 nothing is replaced ([C14_utf8_lossy_valid]);
+    - the byte that shows a character to be truncated is not swallowed: a line end or `;` behind a broken
+      sequence still ends the line ([C14_utf8_keeps_separator]). *)
+Theorem C14_utf8_reader_total : forall bs,
+  Utf8.decode_lossy bs =
+    match Utf8.read_char_lossy bs with
+    | None => []
+    | Some (c, rest) => c :: Utf8.decode_lossy rest
+    end /\
+  (Utf8.read_char_lossy bs = None <-> bs = []) /\
+  (forall c rest, Utf8.read_char_lossy bs = Some (c, rest) -> (List.length rest < List.length bs)%nat).
+Proof.
+  intros bs. split; [exact (Utf8.decode_lossy_step bs)|]. split; [exact (Utf8.read_char_lossy_eof bs)|].
+  exact (Utf8.read_char_lossy_progress bs).
+Qed.
+Print Assumptions C14_utf8_reader_total.
+
+Theorem C14_utf8_lossy_valid : forall bs cs, Utf8.decode bs = Some cs -> Utf8.decode_lossy bs = cs.
+Proof. exact Utf8.decode_lossy_valid. Qed.
+Print Assumptions C14_utf8_lossy_valid.
+
+Theorem C14_utf8_keeps_separator : forall a n pre b rest,
+  Utf8.cont_due a = Some n -> forallb Utf8.is_cont pre = true -> (List.length pre < n)%nat -> Utf8.is_cont b = false ->
+  Utf8.read_char_lossy (a :: pre ++ b :: rest) = Some (Utf8.replacement, b :: rest).
+Proof. exact Utf8.read_char_lossy_keeps. Qed.
+Print Assumptions C14_utf8_keeps_separator.
+
+Example C14_utf8_lossy_nonvacuous :
+  Utf8.decode_lossy [99; 97; 102; 233; 10; 113] = [99; 97; 102; 65533; 10; 113] /\
+  Utf8.decode_lossy [226; 134; 59; 195; 169] = [65533; 59; 233] /\
+  Utf8.decode_lossy [237; 160; 128] = [65533] /\ Utf8.decode_lossy [255; 65] = [65533; 65] /\
+  Utf8.cont_due 226 = Some 2%nat /\ Utf8.is_cont 134 = true /\ Utf8.is_cont 59 = false.
 Proof. vm_compute. repeat split. Qed.
